@@ -51,7 +51,35 @@ def run(m, rep, tier):
         n_alloc_entries += 1
         check_failure_paths(m, f, acs, f2, f3, f5)
     rep.extra['allocating_entry_points'] = n_alloc_entries
+    f6 = rep.rule('F6', 'hash resize: nothing of the table changes before the bucket allocation is known to have succeeded', floor=1)
+    pf = m.pfn('cstl_hash_resize')
+    if pf is None:
+        f6.undecided('cstl_hash_resize', 'not in the model')
+    else:
+        from ..hashmodel import Roles, fld as hfld
+        roles = Roles(m)
+        setters = {g.name for g in m.plain['hash'].defined() if alloc_calls(g)} if 'hash' in m.plain else set()
+        reqs = [c for c in pf.all_insts() if c.op == 'call' and c.callee in setters]
+        early = []
+        for s in pf.all_insts():
+            touch = (s.op == 'store' and resolve_addr(pf, s.o[1]).root == '$0') or (s.op == 'call' and s.callee == 'cstl_hash_rehash')
+            if touch and reqs and any(_can_precede(pf, s, c) for c in reqs):
+                early.append(s)
+        if not reqs:
+            f6.undecided('cstl_hash_resize', 'the capacity request (function that reallocates the bucket array) was not found')
+        elif early:
+            f6.violation('cstl_hash_resize', 'the table is modified at %s before the bucket allocation it depends on: if that allocation fails the function '
+                         'returns quietly with the table disturbed' % early[0].loc(), floc(m, pf), {})
+        else:
+            f6.ok('cstl_hash_resize', 'no store into the table and no forced rehash can precede the capacity request', floc(m, pf))
     rep.assumptions += ['malloc/realloc/free and user callbacks do not modify library-private state (realloc keeps the old block on failure)']
+
+
+def _can_precede(f, a, b):
+    """instruction a can execute before instruction b on some path"""
+    if a.block is b.block:
+        return a.pos < b.pos
+    return b.block.idx in {x.idx for x in f.reachable_from(a.block)}
 
 
 def relevant_values(f, alias_of):
